@@ -1,5 +1,6 @@
 # C01 - GDSII save/load round trip: the re-loaded library must equal the canonical model computed from
 # the *spec* (exact rational rounding to the grid); second and third cycles must be fixpoints.
+import math
 import random
 
 import genlib
@@ -17,6 +18,24 @@ def make_case(i, tier):
     lib = g.library()
     rnd = random.Random(sd)
     maxp = rnd.choice(MAXP)
+    # Raith MBMS data on a simple path (gdstk's own extension records RAITHMBMSPATH / RAITHPXXDATA): the geometry must survive like any other
+    if rnd.random() < 0.05:
+        sp_ = [fp for c_ in lib['cells'] for fp in c_['fpaths'] if fp['simple']]
+        if sp_:
+            rnd.choice(sp_)['raith'] = {'name': 'BASE', 'pitch': (0.01, 0.02, 1.0), 'periods': 3, 'grating': 1, 'dots': 7, 'dwell': 1}
+    # array sizes around the limit of the 16-bit COLROW field: 32767 must survive, more must be refused (or survive), never change silently
+    big = None
+    if rnd.random() < 0.08:
+        refs = [(ci, ri) for ci, c_ in enumerate(lib['cells']) for ri, rf in enumerate(c_['refs'])]
+        if refs:
+            ci, ri = rnd.choice(refs)
+            rf = lib['cells'][ci]['refs'][ri]
+            gg = lib['precision'] / lib['unit']
+            big = rnd.choice([32767, 32767, 32768, 40000, 65535, 65536])
+            rf['rotation'] = rnd.choice([0.0, math.pi / 2])
+            rf['rep'] = {'kind': 'rect', 'cols': big if rnd.random() < 0.5 else 2, 'rows': 1, 'spacing': (10 * gg, 7 * gg)}
+            if rf['rep']['cols'] == 2:
+                rf['rep']['rows'] = big
     c = Case('L%d' % i, timeout=60)
     lh, chs = genlib.emit_library(c, lib)
     # outlines of non-simple paths (region the file must reproduce)
@@ -43,7 +62,7 @@ def make_case(i, tier):
     c.op('write_gds', 'l2', 'f3.gds', maxp, ts)
     c.op('read_gds', 'f3.gds', 0, 0)
     c.op('dump_lib', 'l3', 'L3')
-    c.meta = {'spec': lib, 'max_points': maxp, 'want': want, 'seed': sd}
+    c.meta = {'spec': lib, 'max_points': maxp, 'want': want, 'seed': sd, 'big_array': big}
     return c
 
 
@@ -79,6 +98,11 @@ def judge(chk, c, evs):
             return
         outl[(ci, kind, pi)] = [((p['layer'], p['type']), [(p['pts'][k], p['pts'][k + 1]) for k in range(0, len(p['pts']), 2)]) for p in e['polys']]
     errs = [e for e in evs if e['op'] in ('write_gds', 'read_gds') and e.get('k') != 'call']
+    m = c.meta
+    if m.get('big_array') and m['big_array'] > 32767 and errs and errs[0]['op'] == 'write_gds' and errs[0]['err'] == 7:      # the first save, of the library as specified
+        chk.cov('oversized_array_refused')         # InvalidRepetition: the writer said it cannot store the array; nothing more to compare
+        chk.cov('cases_judged')
+        return
     for e in errs:
         # warnings that the domain makes legitimate: MissingReference (by-name refs to absent cells), UnofficialSpecification
         if e['err'] not in (0, 4, 6):
